@@ -15,6 +15,8 @@ from .. import uscan
 
 
 def run(ctx):
+    from .configtime import config_at_call_time
+    config_at_call_time(ctx, 'C15.R3', classes=('Recipe', 'RecipeStep', 'Unit', 'Substance'))
     model = ctx.model
     from . import unitspec as _us
     _us.api_verified(ctx, 'C15.R3')
@@ -182,7 +184,8 @@ def run(ctx):
                     continue
                 side, idx = k.split('[')[0], k.split('[')[1].rstrip(']')
                 after, dest = set(), set()
-                for f in conds:
+                # the conditions of the choice and the conditions under which this return is reached
+                for f in list(conds) + [f_ for f_ in ex.state.facts.values() if f_ not in conds]:
                     for c in normalise_fact(f):
                         if c.op in ('eq', 'ne') and any(const_value(x) == 'after' for x in (c.left, c.right) if x is not None):
                             after.add(c.op == 'eq')
